@@ -72,6 +72,95 @@ pub fn dispatch(which: &str) -> String {
             }
             "OK".to_string()
         }
+        // ---- C06: malformed input
+        "bulk_invalid_bool" => {
+            let mut b = 2u64.to_le_bytes().to_vec();
+            b.extend_from_slice(&[7, 1]);
+            match Deserializer::bare_deserialize::<Vec<bool>>(&mut Cursor::new(&b), 0) {
+                Ok(v) => {
+                    let raw = unsafe { *(v.as_ptr() as *const u8) };
+                    if raw > 1 { format!("DEFECT Vec<bool> of len {} holds the byte {}", v.len(), raw) } else { "OK normalised".to_string() }
+                }
+                Err(e) => format!("OK rejected {:?}", e).chars().take(80).collect(),
+            }
+        }
+        "bulk_invalid_char" => {
+            let mut b = 1u64.to_le_bytes().to_vec();
+            b.extend_from_slice(&0xD800u32.to_le_bytes());
+            match Deserializer::bare_deserialize::<Vec<char>>(&mut Cursor::new(&b), 0) {
+                Ok(v) => {
+                    let raw = unsafe { *(v.as_ptr() as *const u32) };
+                    if raw == 0xD800 { format!("DEFECT Vec<char> holds the surrogate {:#x}", raw) } else { "OK".to_string() }
+                }
+                Err(e) => format!("OK rejected {:?}", e).chars().take(80).collect(),
+            }
+        }
+        "bulk_invalid_enum" => {
+            let mut b = 1u64.to_le_bytes().to_vec();
+            b.push(200);
+            match Deserializer::bare_deserialize::<Vec<crate::gen::FixE8>>(&mut Cursor::new(&b), 0) {
+                Ok(v) => {
+                    let raw = unsafe { *(v.as_ptr() as *const u8) };
+                    let r = format!("DEFECT Vec<FixE8> holds the discriminant {} (3 variants)", raw);
+                    std::mem::forget(v);
+                    r
+                }
+                Err(e) => format!("OK rejected {:?}", e).chars().take(80).collect(),
+            }
+        }
+        "vec_overflow" => {
+            let n: u64 = (1u64 << 62) + 1;
+            let mut b = n.to_le_bytes().to_vec();
+            b.extend_from_slice(&[1, 2, 3, 4]);
+            let r = std::panic::catch_unwind(|| Deserializer::bare_deserialize::<Vec<u32>>(&mut Cursor::new(&b), 0));
+            match r {
+                Err(p) => format!("DEFECT panic: {}", crate::util::panic_class(&p)),
+                Ok(Ok(v)) => {
+                    let l = v.len();
+                    std::mem::forget(v);
+                    format!("DEFECT a Vec<u32> claiming {} elements was returned from 4 payload bytes", l)
+                }
+                Ok(Err(e)) => format!("OK rejected {:?}", e).chars().take(80).collect(),
+            }
+        }
+        "systemtime_panic" => {
+            let b = (u128::MAX >> 1).to_le_bytes().to_vec();
+            let r = std::panic::catch_unwind(|| Deserializer::bare_deserialize::<std::time::SystemTime>(&mut Cursor::new(&b), 0).map(|_| ()));
+            match r {
+                Err(p) => format!("DEFECT panic: {}", crate::util::panic_class(&p)),
+                Ok(r) => format!("OK {:?}", r.map_err(|e| format!("{:?}", e))).chars().take(80).collect(),
+            }
+        }
+        "bitvec_setlen" => {
+            let mut b = 1000u64.to_le_bytes().to_vec();
+            b.extend_from_slice(&(4u64 | (1 << 63)).to_le_bytes());
+            b.extend_from_slice(&[0xff, 0, 0, 0]);
+            let r = std::panic::catch_unwind(|| Deserializer::bare_deserialize::<bit_vec::BitVec<u32>>(&mut Cursor::new(&b), 0));
+            match r {
+                Err(p) => format!("DEFECT panic: {}", crate::util::panic_class(&p)),
+                Ok(Ok(v)) => {
+                    let (l, words) = (v.len(), v.storage().len());
+                    if l > words * 32 { let r = format!("DEFECT BitVec claims {} bits over {} storage words", l, words); std::mem::forget(v); r } else { "OK".to_string() }
+                }
+                Ok(Err(e)) => format!("OK rejected {:?}", e).chars().take(80).collect(),
+            }
+        }
+        "trait_name_panic" => {
+            let mut f = b"savefile\0".to_vec();
+            f.extend_from_slice(&2u16.to_le_bytes());
+            f.extend_from_slice(&0u32.to_le_bytes());
+            f.push(0);
+            f.extend_from_slice(&[15, 1]);
+            f.extend_from_slice(&5u64.to_le_bytes());
+            f.extend_from_slice(b"T+Foo");
+            f.extend_from_slice(&0u64.to_le_bytes());
+            f.extend_from_slice(&7u32.to_le_bytes());
+            let r = std::panic::catch_unwind(|| savefile::load::<u32>(&mut Cursor::new(&f), 0));
+            match r {
+                Err(p) => format!("DEFECT panic: {}", crate::util::panic_class(&p)),
+                Ok(r) => format!("OK {:?}", r.map_err(|e| format!("{:?}", e))).chars().take(80).collect(),
+            }
+        }
         _ => format!("UNKNOWN-KF {}", which),
     }
 }
